@@ -121,4 +121,23 @@ __CPROVER_ensures(!VALID_COL(lp, collist[qsv_g.gk]) ==> __CPROVER_return_value !
 __CPROVER_ensures((__CPROVER_return_value == 0 && lower != 0) ==> NUMEQ(lower[qsv_g.gk], lp->O->lower[COLOF(lp, collist[qsv_g.gk])]))
 __CPROVER_ensures((__CPROVER_return_value == 0 && upper != 0) ==> NUMEQ(upper[qsv_g.gk], lp->O->upper[COLOF(lp, collist[qsv_g.gk])]))
 ;
+
+/* ------------------------------------------------------------------ cached solution (C01 / C05)
+ * with a cache whose dimensions are the problem's (wf_cache: every producer keeps them equal), the accessor hands out
+ * exactly the cached vectors -- the ones QSexact_optimal_test certified -- entry by entry (ghost position gk), and the
+ * cached value; frame = the output arrays */
+int contract_ILLlib_solution(mpq_lpinfo *lp, mpq_ILLlp_cache *C, mpq_t *val, mpq_t *x, mpq_t *pi, mpq_t *slack, mpq_t *rc)
+__CPROVER_requires(LP_OK(lp) && C != 0 && C->nrows == lp->O->nrows && C->nstruct == lp->O->nstruct && 0 <= qsv_g.gk)
+__CPROVER_assigns(val != 0: *val)
+__CPROVER_assigns(x != 0: __CPROVER_object_whole(x))
+__CPROVER_assigns(pi != 0: __CPROVER_object_whole(pi))
+__CPROVER_assigns(slack != 0: __CPROVER_object_whole(slack))
+__CPROVER_assigns(rc != 0: __CPROVER_object_whole(rc))
+__CPROVER_ensures(__CPROVER_return_value == 0)
+__CPROVER_ensures(val != 0 ==> NUMEQ(*val, C->val))
+__CPROVER_ensures((x != 0 && qsv_g.gk < lp->O->nstruct) ==> NUMEQ(x[qsv_g.gk], C->x[qsv_g.gk]))
+__CPROVER_ensures((rc != 0 && qsv_g.gk < lp->O->nstruct) ==> NUMEQ(rc[qsv_g.gk], C->rc[qsv_g.gk]))
+__CPROVER_ensures((pi != 0 && qsv_g.gk < lp->O->nrows) ==> NUMEQ(pi[qsv_g.gk], C->pi[qsv_g.gk]))
+__CPROVER_ensures((slack != 0 && qsv_g.gk < lp->O->nrows) ==> NUMEQ(slack[qsv_g.gk], C->slack[qsv_g.gk]))
+;
 #endif
